@@ -582,6 +582,9 @@ func (env *SpecEnv) sel(n *ESel) *Value {
 	}
 	fv, ok := obj.(*types.Var)
 	if !ok || !fv.IsField() {
+		if off, cnt, srt, ok := x.eng.ghostField(v.T, n.Name); ok {
+			return ghostFieldValue(v, off, cnt, srt)
+		}
 		sfail("%s has no field %s", v.T, n.Name)
 	}
 	cur := v
@@ -600,6 +603,16 @@ func (env *SpecEnv) sel(n *ESel) *Value {
 		x.ctx.Assume(x.eng.typeInv(cur, env.st.alloc))
 	}
 	return cur
+}
+
+func ghostFieldValue(v *Value, off, cnt int, srt string) *Value {
+	switch srt {
+	case "seq":
+		return seqVal(arrSeq(v.C[off], v.C[off+1]))
+	case "bool":
+		return mkBool(v.C[off])
+	}
+	return mkInt(v.C[off])
 }
 
 func (env *SpecEnv) noteShift(sq *SeqV, i Term) {
@@ -938,6 +951,25 @@ func (env *SpecEnv) call(n *ECall) *Value {
 		return mkInt(v.C[0])
 	case "content":
 		return env.eval(n.Args[0])
+	case "zeros":
+		n0 := env.asInt(env.eval(n.Args[0]))
+		return seqVal(&SeqV{Len: n0, At: func(i Term) Term { return IntLit(0) }})
+	case "setghost":
+		// setghost(obj, "field", value): the ghost field of obj holds value in the post-state
+		if len(n.Args) != 3 {
+			sfail("setghost(obj, \"field\", value)")
+		}
+		fs, ok := n.Args[1].(*EStr)
+		if !ok {
+			sfail("setghost: field name must be a string literal")
+		}
+		cur := env.eval(&ESel{X: n.Args[0], Name: fs.V})
+		val := env.eval(n.Args[2])
+		if cur.Seq != nil {
+			mb, lb := env.materialise(env.toSeq(val))
+			return mkBool(And(Eq(cur.Seq.Arr, mb), Eq(cur.Seq.Len, lb)))
+		}
+		return mkBool(Eq(cur.C[0], val.C[0]))
 	case "seqid":
 		// the two sequences are one and the same (trusted specs of ghost attributes)
 		sa, sb := env.toSeq(env.eval(n.Args[0])), env.toSeq(env.eval(n.Args[1]))
